@@ -108,6 +108,6 @@ def run(ctx):
     # references, attribute paths and connections across import files (schema-qualified references)
     import engine
     scale = 1 if ctx.tier == "quick" else 10
-    engine.import_family(ctx, random.Random(ctx.seed + 3), 24 * scale, 16 * scale,
-                         only=("connection_target_missing", "connection_target_native", "connection_target_in_other_import", "add_dependency_not_native_checkpoint"),
+    engine.import_family(ctx, random.Random(ctx.seed + 3), 24 * scale, 24 * scale,
+                         only=("connection_target_missing", "connection_target_native", "connection_target_in_other_import", "add_dependency_not_native_checkpoint", "add_dependency_names_a_generated_id"),
                          what="T3 correspondence: references across import files, whole validator vs Coq model (Model/Imports.v)")
